@@ -21,7 +21,22 @@ def import_closure(modules):
     return sorted(seen.values())
 
 
-def proof_stage(ctx, pid, gen=(), extra_targets=("ovmjudge",), min_theorems=1):
+def proof_stage(ctx, pid, gen=(), extra_targets=("ovmjudge",), min_theorems=1, extra_props=()):
+    """`extra_props`: further modules OVM.Props.<name> whose theorems belong to this property (built and audited too)."""
+    res = _proof_stage(ctx, pid, gen, extra_targets, min_theorems)
+    for name in extra_props:
+        r2 = _proof_stage(ctx, name, (), (), min_theorems)
+        res["ok"] = res["ok"] and r2["ok"]
+        res["theorems"] += r2["theorems"]
+        res["axioms"].update(r2["axioms"])
+        res["failures"] += r2["failures"]
+        res["log"] += r2["log"]
+        if "leanchecker" in r2:
+            res["leanchecker"] = "ok" if res.get("leanchecker", "ok") == "ok" and r2["leanchecker"] == "ok" else "FAILED"
+    return res
+
+
+def _proof_stage(ctx, pid, gen=(), extra_targets=("ovmjudge",), min_theorems=1):
     """Returns dict(ok, theorems, axioms, failures, log).  Never raises for a failed proof:
     the caller turns a failure into a search for a concrete failing input."""
     res = {"ok": True, "theorems": [], "axioms": {}, "failures": [], "log": ""}
